@@ -33,7 +33,9 @@ class Interner:
         if nm is None:
             nm = "%s%d" % (kind, len(self.names))
             self.names[key] = nm
-            if kind == "s":
+            if kind == "s" and len(content) > 1000 and len(set(content)) == 1 and 32 < ord(content[0]) < 127 and content[0] != '"':
+                self.defs.append('Definition %s : string := Eval vm_compute in rep_char "%s" (N.to_nat %d%%N).' % (nm, content[0], len(content)))
+            elif kind == "s":
                 self.defs.append("Definition %s : string := %s." % (nm, coq_string(content)))
             else:
                 self.defs.append('Definition %s : string := Eval vm_compute in hx "%s".' % (nm, content))
@@ -250,7 +252,10 @@ def run_spans(ck):
     tot = {"M": [], "V": [], "K": [], "R": []}
     # Coq spends ~0.1 s per request elaborating the literal: shards are evaluated by parallel coqc processes
     shard = 100
-    texts = [(k // shard, cases_file(cases[k:k + shard])) for k in range(0, len(cases), shard)]
+    heavy = [c for c in cases if size_of(c) > 200000]          # the > 1 MiB request: a shard of its own
+    light = [c for c in cases if size_of(c) <= 200000]
+    groups = [[c] for c in heavy] + [light[k:k + shard] for k in range(0, len(light), shard)]
+    texts = [(k, cases_file(g)) for k, g in enumerate(groups)]
     from concurrent.futures import ThreadPoolExecutor
     with ThreadPoolExecutor(max_workers=6) as ex:
         results = list(ex.map(lambda kt: eval_text(ck, "C06_spans_%d" % kt[0], kt[1]), texts))
@@ -349,8 +354,9 @@ def run(ck):
     ck.trusted += [
         "C06: protobuf and JSON (de)serialisation (proto.Marshal/Unmarshal, jx, fastjson) are not modelled: the payload is an abstract value; "
         "the correspondence decodes the real payload bytes and compares the decoded value",
-        "C06: rows are observed at the parsers' output (TempoSamples/TempoTag) and replayed as database rows; the column-wise copy in "
-        "tempoInsertService.go and ClickHouse storage are not modelled; requests above 1 MiB (mid-request flush) are not generated",
+        "C06: rows are observed as the ch-go columns (by column name) that the real insert services' AcquireColumns/ProcessRequest build from the "
+        "parsers' output, and replayed as database rows to the read path; block transport and ClickHouse storage are not modelled (a stored row is "
+        "assumed to be read back as written); the Date column is computed with zone offset 0 (UTC); requests above 1 MiB (mid-request flush) are not generated",
         "C06: ids are 16/8 bytes wide and present (requests violating this belong to C05/C12); JSON objects have no repeated member names in the theorems' domain",
     ]
     ck.coq_props()
